@@ -15,11 +15,15 @@ Pipeline of one check (tools/check.py <ID>):
 import fcntl, hashlib, json, os, re, shutil, subprocess, sys, time
 
 VERIF = os.path.dirname(os.path.dirname(os.path.abspath(__file__)))
-REPO = os.environ.get("VERIF_REPO", "/repo")
-CACHE = os.path.join(VERIF, ".cache")
+REPO = os.path.abspath(os.environ.get("VERIF_REPO", "/repo"))
+# build cache of libnano + harnesses; a scratch worktree given by VERIF_REPO (used to try seeded changes without
+# touching /repo) gets its own cache directory so that it never mixes with the cache of /repo
+CACHE = os.path.join(VERIF, ".cache") if REPO == "/repo" else os.path.join(VERIF, ".cache", "alt-" + hashlib.sha1(REPO.encode()).hexdigest()[:10])
+LEANCACHE = os.path.join(VERIF, ".cache")
+EVIDENCE = os.path.join(VERIF, "evidence") if REPO == "/repo" else os.path.join(CACHE, "evidence")
+REPLAYS = os.path.join(VERIF, "replays") if REPO == "/repo" else os.path.join(CACHE, "replays")
 LEAN = os.path.join(VERIF, "lean")
 HARNESS = os.path.join(VERIF, "harness")
-EVIDENCE = os.path.join(VERIF, "evidence")
 GUARD = "NANO_VERIF"
 NCPU = os.cpu_count() or 4
 
@@ -60,7 +64,9 @@ def run(cmd, cwd=None, timeout=None, env=None, input=None, check=False):
 class Lock:
     def __init__(self, name):
         os.makedirs(CACHE, exist_ok=True)
-        self.path = os.path.join(CACHE, name + ".lock")
+        base = LEANCACHE if name == "lake" else CACHE
+        os.makedirs(base, exist_ok=True)
+        self.path = os.path.join(base, name + ".lock")
     def __enter__(self):
         self.f = open(self.path, "w")
         fcntl.flock(self.f, fcntl.LOCK_EX)
@@ -251,7 +257,10 @@ def lake_build(targets):
             out = p.stdout + p.stderr
             errs = [l for l in out.splitlines() if "error" in l][:40]
             raise Broken("lake-build", "\n".join(errs) or out[-4000:])
-    return os.path.join(LEAN, ".lake", "build", "bin", "driver")
+
+
+def driver_path(pid):
+    return os.path.join(LEAN, ".lake", "build", "bin", "driver_" + pid.lower())
 
 
 def strip_lean_comments(s):
